@@ -145,6 +145,55 @@ theorem le_mul_ceil (n S : Nat) (hS : 0 < S) : n ≤ S * ((n + S - 1) / S) := by
   have := Nat.mod_lt (n + S - 1) hS
   omega
 
+/-- the facts about the chunk size that both tree variants need: `per = nextPow2(ceil(n/S)) ≥ 2` is a power of two below `n`,
+at least `ceil(n/S)`, and `BitWidth::count(per)` is its exponent -/
+theorem per_facts (n S x : Nat) (hS : 2 ≤ S) (hxdef : (n + S - 1) / S = x) (hper : ¬ nextPow2 x ≤ 1) :
+    2 ≤ nextPow2 x ∧ nextPow2 x < n ∧ x ≤ nextPow2 x ∧ 2 ^ bwCount (nextPow2 x) = nextPow2 x := by
+  have hx0 : x ≠ 0 := by
+    intro h; subst h; simp [nextPow2] at hper
+  have hnp : nextPow2 x = 2 ^ log2C x := by simp [nextPow2, hx0]
+  have hx2 : 2 ≤ x := by
+    apply Nat.le_of_not_lt
+    intro h
+    have : x = 1 := by omega
+    subst this
+    simp [nextPow2, log2C] at hper
+  have hk : 1 ≤ log2C x := by
+    unfold log2C; rw [if_neg (by omega)]; omega
+  have hperlt : nextPow2 x < n := by
+    have := per_lt n S hS (by rw [hxdef]; exact hx2)
+    rw [hxdef] at this; rw [hnp]; exact this
+  have hxper : x ≤ nextPow2 x := by rw [hnp]; exact le_two_pow_log2C (by omega)
+  refine ⟨by omega, hperlt, hxper, ?_⟩
+  unfold bwCount
+  rw [if_neg (by omega), hnp, log2C_two_pow hk]
+
+/-- one tree level is right if the level below is: when the chunk results are the lowest set bit of each chunk, the select loop
+and `cat(highSelect, lowSelect)` yield the lowest set bit of the whole word -/
+theorem treeCombine_flat (bps S x per : Nat) (bits : List Bool) (lower : List PEOut)
+    (hSdef : 2 ^ bps = S) (hS : 2 ≤ S) (hxdef : (bits.length + S - 1) / S = x)
+    (hper2 : 2 ≤ per) (hxper : x ≤ per) (hlowW : 2 ^ bwCount per = per)
+    (hm : (lower.map fun o => (o.v, o.valid)) = (chunks per bits.length bits).map fun c => (lowestSet c, (lowestSet c).isSome)) :
+    ∃ w, treeCombine bps per lower = ⟨w, lowestSet bits, (lowestSet bits).isSome⟩ := by
+  simp only [treeCombine]
+  rw [scanDown_eq]
+  rw [firstSome_firstValid lower 0 (treeSelF lower) (fun i => by simp only [treeSelF, Nat.add_zero]; rfl), hm,
+    firstValid_chunks per (by omega) _ _ _ (Nat.le_refl _)]
+  cases hp : lowestSet bits with
+  | none => exact ⟨_, rfl⟩
+  | some p =>
+    have hplt := lowestSet_lt hp
+    have hdiv : p / per < S := by
+      rw [Nat.div_lt_iff_lt_mul (by omega)]
+      have h1 := le_mul_ceil bits.length S (by omega)
+      rw [hxdef] at h1
+      have h2 : S * x ≤ S * per := Nat.mul_le_mul_left _ hxper
+      omega
+    have hval : p / per % S * 2 ^ bwCount per + p % per % 2 ^ bwCount per = p := by
+      rw [hlowW, Nat.mod_eq_of_lt hdiv, Nat.mod_mod, Nat.mul_comm, Nat.div_add_mod]
+    simp only [Option.map_some, Nat.zero_add, Option.isSome_some, hSdef, hval]
+    exact ⟨_, rfl⟩
+
 theorem peTree_eq_flat (bps : Nat) (hb : 1 ≤ bps) (fuel : Nat) (bits : List Bool) (hf : bits.length < fuel) :
     ∃ w, peTree bps fuel bits = some ⟨w, (priorityEncoder bits).v, (priorityEncoder bits).valid⟩ := by
   induction fuel generalizing bits with
@@ -159,28 +208,8 @@ theorem peTree_eq_flat (bps : Nat) (hb : 1 ≤ bps) (fuel : Nat) (bits : List Bo
     by_cases hper : nextPow2 x ≤ 1
     · rw [if_pos hper]; exact ⟨_, rfl⟩
     · rw [if_neg hper]
-      -- per = 2^k ≥ 2, so x ≥ 2
-      have hx0 : x ≠ 0 := by
-        intro h; subst h; simp [nextPow2] at hper
-      have hnp : nextPow2 x = 2 ^ log2C x := by simp [nextPow2, hx0]
-      have hx2 : 2 ≤ x := by
-        apply Nat.le_of_not_lt
-        intro h
-        have : x = 1 := by omega
-        subst this
-        simp [nextPow2, log2C] at hper
-      have hk : 1 ≤ log2C x := by
-        unfold log2C; rw [if_neg (by omega)]; omega
-      rw [hnp] at hper ⊢
-      generalize hperdef : 2 ^ log2C x = per at *
-      have hper2 : 2 ≤ per := by omega
-      have hperlt : per < bits.length := by
-        have := per_lt bits.length S hS (by rw [hxdef]; exact hx2)
-        rw [hxdef, hperdef] at this; exact this
-      have hxper : x ≤ per := by rw [← hperdef]; exact le_two_pow_log2C (by omega)
-      have hlowW : 2 ^ bwCount per = per := by
-        unfold bwCount
-        rw [if_neg (by omega), ← hperdef, log2C_two_pow hk]
+      obtain ⟨hper2, hperlt, hxper, hlowW⟩ := per_facts bits.length S x hS hxdef hper
+      generalize nextPow2 x = per at *
       have hne : bits ≠ [] := by
         intro h; subst h; simp at hperlt
       -- the lower level, by induction
@@ -190,25 +219,8 @@ theorem peTree_eq_flat (bps : Nat) (hb : 1 ≤ bps) (fuel : Nat) (bits : List Bo
         obtain ⟨w, hw⟩ := ih c (by omega)
         exact ⟨w, by rw [hw, priorityEncoder_v c hcne, priorityEncoder_valid]⟩
       obtain ⟨lower, hl, hm⟩ := mapOpt_some _ _ _ _ hlower
-      rw [hl]
-      simp only [treeCombine]
-      rw [scanDown_eq]
-      rw [firstSome_firstValid lower 0 (treeSelF lower) (fun i => by simp only [treeSelF, Nat.add_zero]; rfl), hm,
-        firstValid_chunks per (by omega) _ _ _ (Nat.le_refl _)]
-      rw [priorityEncoder_v bits hne, priorityEncoder_valid]
-      cases hp : lowestSet bits with
-      | none => exact ⟨_, rfl⟩
-      | some p =>
-        have hplt := lowestSet_lt hp
-        have hdiv : p / per < S := by
-          rw [Nat.div_lt_iff_lt_mul (by omega)]
-          have h1 := le_mul_ceil bits.length S (by omega)
-          rw [hxdef] at h1
-          have h2 : S * x ≤ S * per := Nat.mul_le_mul_left _ hxper
-          omega
-        have hval : p / per % S * 2 ^ bwCount per + p % per % 2 ^ bwCount per = p := by
-          rw [hlowW, Nat.mod_eq_of_lt hdiv, Nat.mod_mod, Nat.mul_comm, Nat.div_add_mod]
-        simp only [Option.map_some, Nat.zero_add, Option.isSome_some, hSdef, hval]
-        exact ⟨_, rfl⟩
+      rw [hl, priorityEncoder_v bits hne, priorityEncoder_valid]
+      obtain ⟨w, hw⟩ := treeCombine_flat bps S x per bits lower hSdef hS hxdef hper2 hxper hlowW hm
+      exact ⟨w, by simp only [hw]⟩
 
 end Gatery.C17
